@@ -1,7 +1,9 @@
 package rules
 
 import (
+	"fmt"
 	"go/ast"
+	"go/token"
 	"go/types"
 
 	"pgoverif/checker/an"
@@ -9,7 +11,7 @@ import (
 )
 
 func init() {
-	register(&core.Rule{ID: "FD-HANDSHAKE", Props: []string{"C17"}, Floor: 4,
+	register(&core.Rule{ID: "FD-HANDSHAKE", Props: []string{"C17"}, Floor: 5,
 		Doc: "closing a failure detector cannot hang: Close hands the polling loop its stop token (a blocking send on the unbuffered done channel) exactly when it is the first Close and the loop has announced itself; the loop announces itself (started) exactly when it was not closed first; test and announcement, and test and hand-over, happen within one hold of the write lock, so that neither side can act on a stale answer. Otherwise Close blocks for ever holding the lock - the clean-up of Run never finishes and every Stop hangs",
 		Run: runFDHandshake})
 }
@@ -114,6 +116,101 @@ func runFDHandshake(c *core.Ctx) {
 			}
 		}
 		c.Check(bad == "", "SingleFailureDetector."+method+":"+key, acts[0].Pos(), "test and action within one hold of the write lock", bad+": the other side can change its mind in between, and Close then waits for a loop that is not there (or the loop misses its stop token)")
+	}
+	// a loop that announced itself leaves only by taking the stop token: Close's hand-over is a blocking send, so any other
+	// way out of the polling loop (a break on a final verdict, a return on an error) leaves Close without a receiver
+	if fn := mustMethod(c, e, an.PkgResources, "SingleFailureDetector", "mainLoop"); fn != nil {
+		info := fn.Pkg.Info
+		var loop ast.Stmt
+		var loopLabel string
+		var doneClause *ast.CommClause
+		var labels = map[ast.Stmt]string{}
+		ast.Inspect(fn.Body(), func(m ast.Node) bool {
+			if ls, ok := m.(*ast.LabeledStmt); ok {
+				labels[ls.Stmt] = ls.Label.Name
+			}
+			return true
+		})
+		var stack []ast.Node
+		ast.Inspect(fn.Body(), func(m ast.Node) bool {
+			if m == nil {
+				stack = stack[:len(stack)-1]
+				return true
+			}
+			stack = append(stack, m)
+			cc, ok := m.(*ast.CommClause)
+			if !ok || cc.Comm == nil || doneClause != nil {
+				return true
+			}
+			isDone := false
+			ast.Inspect(cc.Comm, func(k ast.Node) bool {
+				if u, ok := k.(*ast.UnaryExpr); ok && u.Op == token.ARROW && an.SelectedField(info, u.X) == done {
+					isDone = true
+				}
+				return true
+			})
+			if !isDone {
+				return true
+			}
+			doneClause = cc
+			for k := len(stack) - 1; k >= 0; k-- {
+				switch x := stack[k].(type) {
+				case *ast.ForStmt:
+					loop, loopLabel = x, labels[x]
+				case *ast.RangeStmt:
+					loop, loopLabel = x, labels[x]
+				}
+				if loop != nil {
+					break
+				}
+			}
+			return true
+		})
+		if loop == nil || doneClause == nil {
+			c.Lost("SingleFailureDetector.mainLoop:leaves-only-with-the-stop-token", "the polling loop / its receive from done was not found")
+		} else {
+			bad := ""
+			var walk func(n ast.Node, breakable int)
+			walk = func(n ast.Node, breakable int) {
+				ast.Inspect(n, func(m ast.Node) bool {
+					if m == nil || m == n {
+						return true
+					}
+					if m.Pos() >= doneClause.Pos() && m.End() <= doneClause.End() {
+						return false // leaving from inside the arm that took the token is the way out
+					}
+					switch x := m.(type) {
+					case *ast.FuncLit:
+						return false
+					case *ast.ForStmt, *ast.RangeStmt, *ast.SwitchStmt, *ast.TypeSwitchStmt, *ast.SelectStmt:
+						walk(m, breakable+1)
+						return false
+					case *ast.ReturnStmt:
+						bad = fmt.Sprintf("a return at line %d", c.Prog.Fset.Position(x.Pos()).Line)
+					case *ast.BranchStmt:
+						switch {
+						case x.Tok == token.GOTO:
+							bad = fmt.Sprintf("a goto at line %d", c.Prog.Fset.Position(x.Pos()).Line)
+						case x.Tok == token.BREAK && x.Label != nil && x.Label.Name == loopLabel && loopLabel != "":
+							bad = fmt.Sprintf("`break %s` at line %d", loopLabel, c.Prog.Fset.Position(x.Pos()).Line)
+						case x.Tok == token.BREAK && x.Label == nil && breakable == 0:
+							bad = fmt.Sprintf("a break at line %d", c.Prog.Fset.Position(x.Pos()).Line)
+						}
+					}
+					return true
+				})
+			}
+			var body *ast.BlockStmt
+			switch x := loop.(type) {
+			case *ast.ForStmt:
+				body = x.Body
+			case *ast.RangeStmt:
+				body = x.Body
+			}
+			walk(body, 0)
+			c.Check(bad == "", "SingleFailureDetector.mainLoop:leaves-only-with-the-stop-token", loop.Pos(), "every way out of the polling loop lies in the arm that received from done",
+				"the polling loop can end through "+bad+" without having received the stop token: Close then blocks for ever on its hand-over, holding the lock - the clean-up of Run never finishes and every Stop hangs")
+		}
 	}
 	check("mainLoop", "announces-under-the-lock", closing, storeTrue(started), "the announcement (started = true)")
 	check("Close", "hands-over-under-the-lock", started, sendDone, "the hand-over of the stop token (done <- ...)")
